@@ -627,8 +627,7 @@ fn next_op(rng: &mut Rng, g: &mut GenState, polite: bool, linked: &mut bool) -> 
             g.w_live.push(true);
             g.r_live.push(true);
             g.safe.push(!g.risky);
-            // a consumer without SYNC attaching after `linked` runs into F8 at once: keep those rarer
-            let sync = if *linked { if rng.chance(9, 10) { 1 } else { 0 } } else if rng.chance(6, 10) { 1 } else { 0 };
+            let sync = if rng.chance(7, 10) { 1 } else { 0 };
             return format!("attach {} {}", sync, rng.below(2));
         } else if r < 40 {
             // remote notification
